@@ -24,6 +24,76 @@ func checkC11(c *fw.Ctx) {
 	checkV1Deferral(c)
 	checkAgreedState(c)
 	checkResultAssembly(c)
+	checkMainlineIndex(c)
+}
+
+// checkMainlineIndex: powerLevelMainlinePos is both the position table and the "is on the
+// mainline" membership test of the mainline ordering. It may be written only with
+// (mainline[i].EventID() -> i) while ranging over createPowerLevelMainline(), or with the
+// value just read for the same key (an idempotent cache write). Any other write makes the
+// (position, steps) sort key of later events depend on which events were looked up before.
+func checkMainlineIndex(c *fw.Ctx) {
+	rule := "6 mainline-index"
+	n := 0
+	for _, fn := range c.P.SrcFuncs() {
+		for _, b := range fn.Blocks {
+			for _, ins := range b.Instrs {
+				mu, ok := ins.(*ssa.MapUpdate)
+				if !ok || !strings.HasSuffix(fw.Sig(mu.Map), ".powerLevelMainlinePos") {
+					continue
+				}
+				n++
+				key, val := fw.Sig(mu.Key), fw.Sig(mu.Value)
+				construct := fw.FuncName(fn) + ": the mainline index is written only from the mainline itself"
+				// (a) built from the mainline: key EventID(mainline[i]), value i
+				if i := strings.Index(key, ".createPowerLevelMainline("); i >= 0 && strings.HasPrefix(key, "(gmsl.PDU).EventID(") {
+					idx := key[strings.LastIndex(key, "[")+1 : strings.LastIndex(key, "]")]
+					c.Check(val == idx, rule, construct, c.P.Pos(fw.InstrPos(mu)), "position of the event in the mainline", "the value stored for a mainline event ("+val+") is not its index in the mainline ("+idx+")")
+					continue
+				}
+				// (b) idempotent: value and guard are the lookup of the same key
+				okIdem := false
+				if strings.HasPrefix(key, "(gmsl.PDU).EventID(") && strings.HasSuffix(val, "#0") {
+					x := strings.TrimSuffix(strings.TrimPrefix(key, "(gmsl.PDU).EventID("), ")")
+					look := strings.TrimSuffix(val, "#0")
+					direct := look == fw.Sig(mu.Map)+"["+key+"]"
+					viaClosure := strings.HasPrefix(look, "dyn(") && strings.HasSuffix(look, ")("+x+")") && closureLooksUp(fn, mu)
+					if direct || viaClosure {
+						for _, f := range fw.DomConds(b) {
+							if f.Taken && f.Sig == look+"#1" {
+								okIdem = true
+							}
+						}
+					}
+				}
+				c.Check(okIdem, rule, construct, c.P.Pos(fw.InstrPos(mu)), "idempotent (value just read for the same key)", "powerLevelMainlinePos["+key+"] = "+val+" adds or changes an entry outside the mainline construction: events looked up later stop at a different mainline position / step count, so the mainline ordering depends on lookup order")
+			}
+		}
+	}
+	c.Count("mainline_index_writes", n)
+}
+
+// closureLooksUp: the closure called to produce the stored value returns a comma-ok lookup of
+// the same map under EventID(its parameter).
+func closureLooksUp(fn *ssa.Function, mu *ssa.MapUpdate) bool {
+	root := fn
+	for root.Parent() != nil {
+		root = root.Parent()
+	}
+	for _, f := range fw.FamilyOf(root) {
+		if f.Parent() == nil || len(f.Params) != 1 {
+			continue
+		}
+		for _, r := range fw.Returns(f) {
+			if len(r.Results) == 2 {
+				s0, s1 := fw.Sig(r.Results[0]), fw.Sig(r.Results[1])
+				if strings.HasSuffix(s0, ".powerLevelMainlinePos[(gmsl.PDU).EventID(param:"+f.Params[0].Name()+")]#0") && strings.HasSuffix(s1, "#1") && strings.TrimSuffix(s0, "#0") == strings.TrimSuffix(s1, "#1") {
+					return true
+				}
+			}
+		}
+	}
+	return false
 }
 
 // sanitisers: consumers that may receive an order-tainted sequence, with the reason.
@@ -158,7 +228,7 @@ func checkOrderTaint(c *fw.Ctx) {
 		}
 	}
 	c.Count("order_sinks", nsinks)
-	c.Min(rule+" sinks", nsinks, 30)
+	c.Min(rule+" sinks", nsinks, 10)
 	// authAndApplyEvents only receives canonical orders
 	for _, spec := range []string{"ResolveStateConflictsV2", "ResolveStateConflictsV2New"} {
 		if fn := c.P.Func(spec); fn != nil {
@@ -209,8 +279,10 @@ func checkKahnSorts(c *fw.Ctx) {
 		for _, p := range pushes {
 			for _, q := range pops {
 				if fw.PathAvoiding(p.Block(), sorts, q) && reachesInstr(p, q) {
-					// a path from the push's block to the pop avoiding every sort; make sure the path starts after the push
-					if pathAfter(p, sorts, q) {
+					// a path from the push's block to the pop avoiding every sort; make sure the path starts after
+					// the push and is consistent with the boolean flags (`if pushed { sort }` is a sort on
+					// every path that pushed)
+					if pathAfter(p, sorts, q) && fw.FlagPathAfter(p, sorts, q) {
 						bad++
 						c.Fail(rule, spec+": every pick from the work-list follows a sort of it", c.P.Pos(fw.InstrPos(q)), fmt.Sprintf("the work-list can be popped at %s after a push at %s without being sorted in between: the pick depends on map iteration order", c.P.Pos(fw.InstrPos(q)), c.P.Pos(fw.InstrPos(p))))
 					}
@@ -220,8 +292,8 @@ func checkKahnSorts(c *fw.Ctx) {
 		if bad == 0 {
 			c.Ok(rule, spec+": every pick from the work-list follows a sort of it", c.P.Pos(fn.Pos()), fmt.Sprintf("%d pushes x %d pops x %d sorts", len(pushes), len(pops), len(sorts)))
 		}
-		c.Min(rule+" "+spec+" sorts", len(sorts), 3)
-		c.Min(rule+" "+spec+" pushes", len(pushes), 2)
+		c.Min(rule+" "+spec+" sorts", len(sorts), 1)
+		c.Min(rule+" "+spec+" pushes", len(pushes), 1)
 	}
 	if fn := mustFunc(c, rule, "(*stateResolverV2).mainlineOrdering"); fn != nil {
 		n := 0
